@@ -1,5 +1,6 @@
 import DinoProofs.Lemmas.SymmetryTraj
 import DinoProofs.Lemmas.SymmetryFilter
+import DinoProofs.Lemmas.SymmetryFilter2
 import DinoProofs.Lemmas.SymmetryRotReal
 import DinoProofs.Lemmas.SymmetryRotFast
 import DinoProofs.Lemmas.SymmetryMirror
@@ -190,6 +191,71 @@ theorem pe_trajectory_equivariant_spectral_filters [BEq K] [Div N] (cls : Cls)
       = (runHistory (peImEx cls eq invOf)
           (hist.map fun en => ⟨en.1, en.2.1, en.2.2.map fun φ => tmMap (leafFilter φ)⟩) u).map (tmState S) :=
   pe_trajectory_equivariant cls eq H hdiv invOf _ _ (histRel_leafFilters S hist hφ) u
+
+/-- **the filter hypothesis of leapfrog runs, discharged** (`Symmetry.lfRel_leafFilters`, re-exported): a list
+ of leapfrog filters — `Sum.inl φ` = `leapfrog_step_filter` of the spectral filter with multiplier `φ`, `Sum.inr r`
+ = `robert_asselin_leapfrog_filter(r)`, any `r` — is `lfRel`-related to ITSELF as soon as every `φ` commutes
+ with `ρM`; this is the hypothesis `h` of `leapfrog_trajectory_equivariant` / `pe_leapfrog_equivariant` -/
+theorem leapfrog_spectral_filters_related (S : Sym K M N) (fs : List (Sum (M →ₗ[K] M) K))
+    (hφ : ∀ f ∈ fs, ∀ φ, f = Sum.inl φ → ∀ x, φ (S.ρM x) = S.ρM (φ x)) :
+    List.Forall₂ (lfRel (tmState S))
+      (fs.map fun f => match f with
+        | .inl φ => LfFilter.state (tmMap (leafFilter φ))
+        | .inr r => LfFilter.ra r)
+      (fs.map fun f => match f with
+        | .inl φ => LfFilter.state (tmMap (leafFilter φ))
+        | .inr r => LfFilter.ra r) :=
+  lfRel_leafFilters S fs hφ
+
+/-- **leapfrog runs of the primitive-equation classes with spectral filters and Robert–Asselin filters**: the
+ SAME filter list (`Symmetry.lfSpectral`: `inl φ ↦ leapfrog_step_filter (leafFilter φ)`, `inr r ↦ RA(r)`) in both
+ runs, every multiplier commuting with `ρM`, any number of steps -/
+theorem pe_leapfrog_equivariant_spectral_filters [BEq K] [Div N] (cls : Cls)
+    (eq : PrimitiveEquations K M N) (H : Equivariant eq.ops S)
+    (hdiv : ∀ a b : N, S.ρN (a / b) = S.ρN a / S.ρN b) (invOf : K → Nat → List (List K)) (dt α : K)
+    (fs : List (Sum (M →ₗ[K] M) K))
+    (hφ : ∀ f ∈ fs, ∀ φ, f = Sum.inl φ → ∀ x, φ (S.ρM x) = S.ρM (φ x))
+    (k : Nat) (u : TM (StateWithTime K M) × TM (StateWithTime K M)) :
+    runLeapfrog (peImEx cls (S.eqn eq) invOf) dt α (fs.map lfSpectral) k (tmState S u.1, tmState S u.2)
+      = (tmState S (runLeapfrog (peImEx cls eq invOf) dt α (fs.map lfSpectral) k u).1,
+         tmState S (runLeapfrog (peImEx cls eq invOf) dt α (fs.map lfSpectral) k u).2) :=
+  pe_leapfrog_equivariant cls eq H hdiv invOf dt α _ _ (lfRel_lfSpectral S fs hφ) k u
+
+/-- **spectral filters on shallow-water states are conjugated to themselves** (the analogue of
+ `spectral_filter_conjugated` for `shallow_water.State`: no clock, vorticity odd) -/
+theorem sw_spectral_filter_conjugated (S : Sym K M N) (φ : M →ₗ[K] M) (hφ : ∀ x, φ (S.ρM x) = S.ρM (φ x))
+    (u : TM (DynamicsSW.State M)) :
+    tmMap (swLeafFilter φ) (tmMap S.swState u) = tmMap S.swState (tmMap (swLeafFilter φ) u) :=
+  swLeafFilter_conjugated S φ hφ u
+
+/-- **shallow water along any history with spectral filters**: every filter a leaf-wise multiplier commuting
+ with `ρM`; the SAME filters in both runs -/
+theorem sw_trajectory_equivariant_spectral_filters [LT K] [DecidableLT K] (eq : ShallowWaterEquations K M N)
+    (H : Equivariant eq.ops S) (hist : List (Scheme K × K × List (M →ₗ[K] M)))
+    (hφ : ∀ en ∈ hist, ∀ φ ∈ en.2.2, ∀ x, φ (S.ρM x) = S.ρM (φ x)) (u : TM (DynamicsSW.State M)) :
+    runHistory (swImEx (S.swEqn eq)) (histOf (fun φ => tmMap (swLeafFilter φ)) hist) (tmMap S.swState u)
+      = (runHistory (swImEx eq) (histOf (fun φ => tmMap (swLeafFilter φ)) hist) u).map (tmMap S.swState) :=
+  sw_trajectory_equivariant eq H _ _ (histRel_swLeafFilters S hist hφ) u
+
+/-- **leapfrog runs of shallow water** (any conjugated filters) -/
+theorem sw_leapfrog_equivariant [LT K] [DecidableLT K] (eq : ShallowWaterEquations K M N)
+    (H : Equivariant eq.ops S) (dt α : K) (fs' fs : List (LfFilter K (TM (DynamicsSW.State M))))
+    (h : List.Forall₂ (lfRel (tmMap S.swState)) fs' fs) (k : Nat)
+    (u : TM (DynamicsSW.State M) × TM (DynamicsSW.State M)) :
+    runLeapfrog (swImEx (S.swEqn eq)) dt α fs' k (tmMap S.swState u.1, tmMap S.swState u.2)
+      = (tmMap S.swState (runLeapfrog (swImEx eq) dt α fs k u).1,
+         tmMap S.swState (runLeapfrog (swImEx eq) dt α fs k u).2) :=
+  runLeapfrog_equiv (swImEx_intertwines eq H) dt α fs' fs h k u
+
+/-- **leapfrog runs of shallow water with spectral filters and Robert–Asselin filters** -/
+theorem sw_leapfrog_equivariant_spectral_filters [LT K] [DecidableLT K] (eq : ShallowWaterEquations K M N)
+    (H : Equivariant eq.ops S) (dt α : K) (fs : List (Sum (M →ₗ[K] M) K))
+    (hφ : ∀ f ∈ fs, ∀ φ, f = Sum.inl φ → ∀ x, φ (S.ρM x) = S.ρM (φ x)) (k : Nat)
+    (u : TM (DynamicsSW.State M) × TM (DynamicsSW.State M)) :
+    runLeapfrog (swImEx (S.swEqn eq)) dt α (fs.map swLfSpectral) k (tmMap S.swState u.1, tmMap S.swState u.2)
+      = (tmMap S.swState (runLeapfrog (swImEx eq) dt α (fs.map swLfSpectral) k u).1,
+         tmMap S.swState (runLeapfrog (swImEx eq) dt α (fs.map swLfSpectral) k u).2) :=
+  sw_leapfrog_equivariant eq H dt α _ _ (lfRel_swLeafFilters S fs hφ) k u
 
 end glue
 
@@ -629,6 +695,126 @@ example (c : ℚ) (x : ℚ × ℚ × ℚ) : ringDamp c c (quarterTurn.ρM x) = q
 
 example : ringDamp (1 / 3) (1 / 2) (quarterTurn.ρM (0, 1, 0)) ≠ quarterTurn.ρM (ringDamp (1 / 3) (1 / 2) (0, 1, 0)) := by
   simp [ringDamp, quarterTurn]
+
+/-- leapfrog: five Robert–Asselin-filtered, spectrally filtered leapfrog steps of the dry class over the mirrored
+ orography are the mirrored run (every hypothesis of `pe_leapfrog_equivariant_spectral_filters` instantiated,
+ `ε = −1`, a state filter, an RA filter of strength `1/20`, a second state filter) -/
+example (invOf : ℚ → Nat → List (List ℚ))
+    (u : TM (StateWithTime ℚ (ℚ × ℚ)) × TM (StateWithTime ℚ (ℚ × ℚ))) :=
+  pe_leapfrog_equivariant_spectral_filters .dry toyEq toyMirror_equivariant
+    (fun a b => by ext <;> simp [toyMirror]) invOf (1 / 10) (1 / 2)
+    [.inl toyDamp, .inr (1 / 20), .inl toyDamp]
+    (fun f hf φ e x => by
+      have : φ = toyDamp := by
+        subst e
+        simpa using hf
+      rw [this]; exact toyDamp_commutes x) 5 u
+
+/-- the filter lists of that run are not trivial: the state filter halves the odd mode of every leaf and leaves
+ the clock alone -/
+example :
+    let s : StateWithTime ℚ (ℚ × ℚ) :=
+      { state := { vorticity := [(1, 2)], divergence := [(0, 4)], temperatureVariation := [(5, 6)],
+                   logSurfacePressure := (1, 8), tracers := [] }, simTime := 3 }
+    leafFilter toyDamp s =
+      { state := { vorticity := [(1, 1)], divergence := [(0, 2)], temperatureVariation := [(5, 3)],
+                   logSurfacePressure := (1, 4), tracers := [] }, simTime := 3 } := by
+  simp [leafFilter, toyDamp, mapTracers]
+  norm_num
+
+/-- on the ring the one-factor multiplier commutes with the quarter turn (for every factor) … -/
+theorem ringDamp_commutes (c : ℚ) (x : ℚ × ℚ × ℚ) :
+    ringDamp c c (quarterTurn.ρM x) = quarterTurn.ρM (ringDamp c c x) := by
+  ext <;> simp [ringDamp, quarterTurn]
+
+def ringSW : ShallowWaterEquations ℚ (ℚ × ℚ × ℚ) (Fin 4 → ℚ) :=
+  { ops := ringOps
+    specs := { densities := [1, 2], radius := 1, angularVelocity := 1 / 2, gravityAcceleration := 1 }
+    orography := some (1 / 10, 1 / 5, -3 / 10)
+    referencePotential := [1, 3 / 2] }
+
+/-- … so a filtered three-step history of the two-layer shallow-water system over the quarter-turned
+ (zonally asymmetric) orography is the quarter-turned history (every hypothesis of
+ `sw_trajectory_equivariant_spectral_filters` instantiated, `ε = 1`), and so is a leapfrog run with a spectral
+ filter and a Robert–Asselin filter -/
+example (u : TM (DynamicsSW.State (ℚ × ℚ × ℚ))) :=
+  sw_trajectory_equivariant_spectral_filters ringSW quarterTurn_equivariant
+    [(.bfe, 1 / 10, [ringDamp (1 / 2) (1 / 2)]), (.cnrk2, 1 / 5, [ringDamp (1 / 3) (1 / 3)]), (.bfe, 1 / 10, [])]
+    (fun en he φ hφ x => by
+      have : ∃ c, φ = ringDamp c c := by
+        rcases List.mem_cons.1 he with rfl | h
+        · exact ⟨1 / 2, by simpa using hφ⟩
+        · rcases List.mem_cons.1 h with rfl | h
+          · exact ⟨1 / 3, by simpa using hφ⟩
+          · rcases List.mem_cons.1 h with rfl | h
+            · simp at hφ
+            · simp at h
+      obtain ⟨c, rfl⟩ := this
+      exact ringDamp_commutes c x) u
+
+example (u : TM (DynamicsSW.State (ℚ × ℚ × ℚ)) × TM (DynamicsSW.State (ℚ × ℚ × ℚ))) :=
+  sw_leapfrog_equivariant_spectral_filters ringSW quarterTurn_equivariant (1 / 10) (1 / 2)
+    [.inl (ringDamp (1 / 2) (1 / 2)), .inr (1 / 20)]
+    (fun f hf φ e x => by
+      have : φ = ringDamp (1 / 2) (1 / 2) := by
+        subst e
+        simpa using hf
+      rw [this]; exact ringDamp_commutes _ x) 4 u
+
+/-- the shallow-water filter and the quarter-turned orography are not trivial -/
+example :
+    swLeafFilter (ringDamp (1 / 2) (1 / 2))
+        ({ vorticity := [(0, 1, 2)], divergence := [(0, 4, 0)], potential := [(1, 2, 6)] } :
+          DynamicsSW.State (ℚ × ℚ × ℚ))
+      = { vorticity := [(0, 1 / 2, 1)], divergence := [(0, 2, 0)], potential := [(1, 1, 3)] } ∧
+    (quarterTurn.swEqn ringSW).orography ≠ ringSW.orography := by
+  constructor
+  · simp [swLeafFilter, ringDamp]
+    norm_num
+  · simp [ringSW, quarterTurn]
+    norm_num
+
+/-! ### the two hypotheses of `rot_latitude_derivatives_commute` (pairwise-equal recurrence weights, `sn 0 = 0`) -/
+
+/-- real layout (rows `m = 0, +1, −1`), a quarter turn, weights equal on the pair `m = 1` -/
+example :
+    let a : List (List ℚ) := [[1, 2], [3, 4], [3, 4]]
+    let b : List (List ℚ) := [[5, 1], [2, 7], [2, 7]]
+    let x : List (List ℚ) := [[1, 2], [3, 4], [5, 6]]
+    cosLatDDlat a b (rotReal cs4 sn4 4 1 x) = rotReal cs4 sn4 4 1 (cosLatDDlat a b x) ∧
+    secLatDDlatCos2 a b (rotReal cs4 sn4 4 1 x) = rotReal cs4 sn4 4 1 (secLatDDlatCos2 a b x) :=
+  (rot_latitude_derivatives_commute (cs := cs4) (sn := sn4) (N := 4) trig4.sn_zero 2 1 2 _ _ _
+    (by intro row h; simp at h; rcases h with rfl | rfl | rfl <;> rfl)).1
+    (fun m => by cases m <;> simp) (fun m => by cases m <;> simp) rfl
+
+/-- fast layout (rows `+0, −0, +1, −1`; the masked `−0` row carries zero weights), `sn4 0 = 0` from `trig4` -/
+example :
+    let a : List (List ℚ) := [[1, 2], [0, 0], [3, 4], [3, 4]]
+    let b : List (List ℚ) := [[5, 1], [0, 0], [2, 7], [2, 7]]
+    let x : List (List ℚ) := [[1, 2], [0, 0], [3, 4], [5, 6]]
+    cosLatDDlat a b (rotFast cs4 sn4 2 4 1 x) = rotFast cs4 sn4 2 4 1 (cosLatDDlat a b x) ∧
+    secLatDDlatCos2 a b (rotFast cs4 sn4 2 4 1 x) = rotFast cs4 sn4 2 4 1 (secLatDDlatCos2 a b x) :=
+  (rot_latitude_derivatives_commute (cs := cs4) (sn := sn4) (N := 4) trig4.sn_zero 2 1 2 _ _ _
+    (by intro row h; simp at h; rcases h with rfl | rfl | rfl | rfl <;> rfl)).2
+    (fun m hm => by
+      rcases m with _ | _ | m
+      · omega
+      · rfl
+      · simp only [List.getD_eq_getElem?_getD]
+        rw [List.getElem?_eq_none (by simp; omega), List.getElem?_eq_none (by simp; omega)])
+    (fun m hm => by
+      rcases m with _ | _ | m
+      · omega
+      · rfl
+      · simp only [List.getD_eq_getElem?_getD]
+        rw [List.getElem?_eq_none (by simp; omega), List.getElem?_eq_none (by simp; omega)]) rfl (by simp)
+
+/-- the weight hypothesis is a genuine restriction: with different weights on the two rows of the pair `m = 1` the
+ stencil does NOT commute with the rotation -/
+example :
+    cosLatDDlat [[1, 2], [3, 4], [1, 1]] [[5, 1], [2, 7], [2, 7]] (rotReal cs4 sn4 4 1 ([[1, 2], [3, 4], [5, 6]] : List (List ℚ)))
+      ≠ rotReal cs4 sn4 4 1 (cosLatDDlat [[1, 2], [3, 4], [1, 1]] [[5, 1], [2, 7], [2, 7]] [[1, 2], [3, 4], [5, 6]]) := by
+  decide +kernel
 
 end examples
 
